@@ -80,7 +80,7 @@ func (a *Analyzer) mustWrites(fn *ssa.Function, fresh bool) PathSet {
 					}
 				}
 			case ssa.CallInstruction:
-				for _, p := range a.callMustWrites(st, x) {
+				for _, p := range a.callMustWrites(st, x, fresh) {
 					g[cut3(p)] = true
 				}
 			}
@@ -192,14 +192,27 @@ var readOnlyNames = map[string]bool{"Equal": true, "String": true, "MarshalBinar
 	"FillBytes": true, "Int64": true, "Uint64": true, "Text": true, "ProbablyPrime": true, "CmpAbs": true, "IsInt64": true, "Size": true, "Sum": true}
 
 // callMustWrites: regions (caller roots) a call definitely writes.
-func (a *Analyzer) callMustWrites(st *fnState, ci ssa.CallInstruction) []Path {
+func (a *Analyzer) callMustWrites(st *fnState, ci ssa.CallInstruction, fresh bool) []Path {
 	c := ci.Common()
 	var args []ssa.Value
 	if c.IsInvoke() {
 		args = append(args, c.Value)
 	}
 	args = append(args, c.Args...)
-	definite := func(v ssa.Value) (Path, bool) { return definiteParamPath(st.get(v)) }
+	definite := func(v ssa.Value) (Path, bool) {
+		if p, ok := definiteParamPath(st.get(v)); ok {
+			return p, true
+		}
+		if fresh {
+			// constructors: the object under construction handed to a helper that fills part of it
+			if ps := st.get(v); len(ps) == 1 {
+				for p := range ps {
+					return p, true
+				}
+			}
+		}
+		return "", false
+	}
 	var out []Path
 	if c.IsInvoke() {
 		if e, ok := ifaceContract(c); ok {
